@@ -55,7 +55,7 @@ def histories(r, strings, quick):
     hs = []
     # fixed corpus first: the cases where the tracker attribute is absent or stale
     for e1 in ENTRIES:
-        for first in (" a", "", " ", "'", "a '", "(a", "a^.", "a"):
+        for first in (" a", "", " ", "'", "a '", "(a", "a^.", "a", "\ufeffa", "\u200b a"):
             hs.append([(e1, first)])
             for e2 in ENTRIES:
                 hs.append([(e1, first), (e2, " a b "), (e1, " a b "), (e2, first)])
@@ -66,6 +66,9 @@ def histories(r, strings, quick):
         for ws_fail in ("   ", " '", "\t\n", "  \\", " \u3000", "\n )"):
             for e2 in ENTRIES:
                 hs.append([(e2, "a"), (e2, "f:b c"), (e1, ws_fail), (e2, "a"), (e1, "a"), (e2, "f:b c"), (e1, "(x)")])
+                # ... nor reach a first token that a lexer change might place after offset 0 (byte order mark,
+                # zero-width characters: characters of a term today)
+                hs.append([(e1, ws_fail), (e2, "\ufeffa"), (e1, ws_fail), (e1, "\u200bb c"), (e2, "\ufeff")])
     # a parse that fails in the middle of a construct (open range, open group, open phrase), then probes whose
     # reading could depend on a mode the failed parse left behind
     probes = ["TO~2", "TO:a", "<TO", "TO", "a TO b", "[a TO b]", "x]", "a)", 'a"', "a\nb"]
